@@ -528,8 +528,8 @@ func (ctx Ctx) selectorMethod(f *ast.SelectorExpr, call *ast.CallExpr) coq.Expr 
 	}
 
 	namedTy, ok := deref.(*types.Named)
-	if !ok {
-		ctx.unsupported(f, "method call on unnamed type %v", deref)
+	if !ok || namedTy.Obj().Pkg() == nil {
+		ctx.unsupported(f, "method call on unnamed or built-in type %v", deref)
 	}
 	tyName := ctx.qualifiedName(namedTy.Obj())
 	callArgs := append([]ast.Expr{f.X}, args...)
